@@ -9,6 +9,14 @@ import (
 	"golang.org/x/tools/go/ssa"
 )
 
+func boxedSlice(args []Val) (*types.Slice, bool) {
+	if len(args) == 0 || args[0].Boxed == nil {
+		return nil, false
+	}
+	sl, ok := args[0].Boxed.Underlying().(*types.Slice)
+	return sl, ok
+}
+
 // Trusted summaries of external (non-repo) functions. Default: no effect on the repo heap,
 // result unconstrained but well-typed. Every distinct external callee used is recorded in
 // the evidence trusted_base.
@@ -49,6 +57,27 @@ func (c *Ctx) callExternal(fr *Frame, st *State, reach, name string, pos token.P
 			c.frameCheckRef(fr, "(s_arr "+s+")", "sort", st, reach, pos)
 			na := c.havoc("sorted", "(Array Int "+es+")")
 			c.setArr(st, an, es, fmt.Sprintf("(store %s (s_arr %s) %s)", a, s, na))
+		} else if sl, ok := boxedSlice(args); ok {
+			// sort.Slice(x any, less) on a slice value: permutes that slice in place - every element afterwards was
+			// an element before (trusted summary of the library: a permutation ordered by less); the callback only reads
+			es := c.sorts.Of(sl.Elem())
+			an := c.sorts.ElemArrayT(sl.Elem())
+			a := c.arr(st, an, es)
+			s := "(" + unboxName("Slice") + " " + c.term(args[0]) + ")"
+			c.frameCheckRef(fr, "(s_arr "+s+")", "sort", st, reach, pos)
+			na := c.havoc("sorted", "(Array Int "+es+")")
+			i, j := c.fresh("pi"), c.fresh("pj")
+			c.lines = append(c.lines, fmt.Sprintf("(assert (forall ((%s Int)) (! (=> (and (<= 0 %s) (< %s (s_len %s))) (exists ((%s Int)) (and (<= 0 %s) (< %s (s_len %s)) (= (select %s (+ (s_off %s) %s)) (select (select %s (s_arr %s)) (+ (s_off %s) %s)))))) :pattern ((select %s (+ (s_off %s) %s))))))",
+				i, i, i, s, j, j, j, s, na, s, i, a, s, s, j, na, s, i))
+			c.lines = append(c.lines, fmt.Sprintf("(assert (forall ((%s Int)) (! (=> (or (< %s (s_off %s)) (>= %s (+ (s_off %s) (s_len %s)))) (= (select %s %s) (select (select %s (s_arr %s)) %s))) :pattern ((select %s %s)))))",
+				i, i, s, i, s, s, na, i, a, s, i, na, i))
+			c.setArr(st, an, es, fmt.Sprintf("(store %s (s_arr %s) %s)", a, s, na))
+			if len(args) > 1 && args[1].Fn != nil {
+				if pk := fnPkg(args[1].Fn); pk != nil && c.w.isRepoPkg(pk.Pkg.Path()) {
+					c.applyMods(st, c.mods.Of(args[1].Fn))
+				}
+			}
+			return Val{Typ: resType}
 		} else if len(args) > 0 {
 			// sort.Slice(x any, less): x is boxed; contents opaque
 			c.applyMods(st, &ModSet{Top: true})
